@@ -250,6 +250,12 @@ where
     let mut page = 0;
 
     loop {
+        if let Some(max_pages) = config.max_pages
+            && page >= max_pages
+        {
+            break;
+        }
+
         let (items, has_more) = fetch_page(page, config.page_size)?;
 
         if items.is_empty() {
@@ -260,12 +266,6 @@ where
         page += 1;
 
         if !has_more {
-            break;
-        }
-
-        if let Some(max_pages) = config.max_pages
-            && page >= max_pages
-        {
             break;
         }
     }
